@@ -95,7 +95,7 @@ def c06(tier):
 # --------------------------------------------------------------------------- #
 # C07 / C08 timer                                                               #
 # --------------------------------------------------------------------------- #
-def tmr_inst(name, P, K, isr, ops=None, tmax=7, weight=1):
+def tmr_inst(name, P, K, isr, ops=None, tmax=7, weight=1, cap_quick=300):
     # list lengths are bounded by the pool size and by the number of creations in the sequence
     nc = sum(1 for o in ops if o == 0) if ops is not None else P
     b = min(P, max(nc, 1)) + 1
@@ -112,7 +112,7 @@ def tmr_inst(name, P, K, isr, ops=None, tmax=7, weight=1):
                 unwindset=dict({'COTmrDelete': b, 'COTmrProcess': b if isr < 2 else b + 1, 'COTmrInsert': b, 'COTmrRemove': b + 1, 'COTmrReset': P + 1,
                                 'check_pools': P + 2, 'CoVerifTmrPool': P + 1}, **({'check_due': max(P + 2, K + 1)} if isr == 0 else {})),
                 types=[], fp_override={'COTmrProcess.function_pointer_call.1': ['cb']}, weight=weight, objbits=9,
-                solver=([] if isr == 3 else None),      # MiniSat decides this family in 80 s, CaDiCaL not within 280 s (measured)
+                cap_quick=cap_quick, solver=[],      # MiniSat (cbmc default) is 2-4x faster than CaDiCaL on this family, and decides instances CaDiCaL does not finish (measured)
                 harness_only=['P', 'K', 'ISR', 'TMAX', 'OPSEQ', 'NPRE', 'ONESHOT'], family='tmr_bmc',
                 bounds='timer pool %d (separate blocks), operation kinds %s, arguments symbolic, times 0..%d ticks%s' % (
                     P, ''.join('CDTP'[o] for o in ops) if ops else '%d symbolic' % K, tmax,
@@ -142,6 +142,9 @@ def c07(tier):
             if P > 2 and sum(1 for o in ops if o == 0) < P:
                 continue
             out.append(tmr_inst('tmr_bmc_p%d_%s' % (P, ''.join('CDTP'[o] for o in ops)), P, K, 0, ops, weight=1))
+    # deferred processing: three events fall due one after the other before a single process call
+    for ops in (((0, 0, 0, 2, 2, 2, 3),) if tier == 'quick' else ((0, 0, 0, 2, 2, 2, 3), (0, 0, 0, 2, 2, 2, 3, 3), (0, 0, 2, 0, 2, 2, 3), (0, 0, 0, 2, 2, 2, 1))):
+        out.append(tmr_inst('tmr_bmc_p3_%s' % ''.join('CDTP'[o] for o in ops), 3, len(ops), 0, ops, tmax=3, weight=8, cap_quick=700))
     out.append(Inst('tmr_conv_low', 'tmr_conv.c', {'MODE': 0}, unwind=2, types=[], family='tmr_conv', weight=100,
                     bounds='timer frequency 0..10000 Hz symbolic (all of the freq <= unit branch), two 16-bit symbolic times, unit in {1000, 10000}'))
     for qm in ((15,) if tier == 'quick' else (15, 63)):
@@ -160,7 +163,7 @@ def c08(tier):
     # preemption inside process with TWO events (one elapsed, one falling due inside the process call)
     for ops in (((0, 0, 2, 3),) if tier == 'quick' else ((0, 0, 2, 3), (0, 0, 3), (0, 0, 2, 3, 3), (0, 0, 2, 3, 1), (0, 2, 0, 3), (0, 0, 2, 2, 3))):
         out.append(tmr_inst('tmr_isr3_p2_%s' % ''.join('CDTP'[o] for o in ops), 2, len(ops), 3, ops, tmax=2, weight=5))
-    for ops in (((0, 0, 1), (0, 0, 1, 3)) if tier == 'quick' else ((0, 0, 1), (0, 0, 1, 3), (0, 0, 1, 1), (0, 0, 0, 1))):
+    for ops in (((0, 0, 1), (0, 0, 1, 3), (0, 0, 0, 3)) if tier == 'quick' else ((0, 0, 1), (0, 0, 1, 3), (0, 0, 0, 3), (0, 0, 1, 1), (0, 0, 0, 1))):
         out.append(tmr_inst('tmr_isr1_p3_%s' % ''.join('CDTP'[o] for o in ops), 3, len(ops), 1, ops, tmax=3, weight=6))
     for isr, P, K, tmax in cfg:
         for ops in op_seqs(K):
@@ -829,7 +832,7 @@ def c17(tier):
     return out
 
 
-def csdo_inst(kind, dirn=0, size=4, beh=0, j=0, follow=1, cbtmr=False):
+def csdo_inst(kind, dirn=0, size=4, beh=0, j=0, follow=1, cbtmr=False, cbreq=False):
     defs = dict(NODE_DEFS)
     defs.update({'KIND': kind, 'DIRN': dirn, 'SIZE': size, 'BEH': beh, 'J': j, 'FOLLOW': follow, 'CO_VERIF_SDO_BUF_SEG': 2, 'OD_TMR_N': 3})
     uw = node_unwind(2)
@@ -839,12 +842,14 @@ def csdo_inst(kind, dirn=0, size=4, beh=0, j=0, follow=1, cbtmr=False):
                'COCSdoDownloadSegmented': 9, 'COCSdoRequestDownload': 6})
     if cbtmr:
         defs['CBTMR'] = None
-    behs = ['conforming', 'abort at step %d' % j, 'silent from step %d' % j, 'unknown command at step %d' % j, 'wrong toggle at step %d' % j, 'oversized / foreign answer']
+    if cbreq:
+        defs['CBREQ'] = None
+    behs = ['conforming', 'abort at step %d' % j, 'silent from step %d' % j, 'unknown command at step %d' % j, 'wrong toggle at step %d' % j, 'oversized / foreign answer', 'final segment claiming 7 bytes']
     if kind == 1:
         return Inst('csdo_step', 'csdo_e2e.c', defs, unwind=602, unwindset=uw, objbits=10, csdo_cbs=['cb'], harness_only=['KIND', 'DIRN', 'SIZE', 'BEH', 'J', 'FOLLOW'],
                     family='csdo_e2e', bounds='segmented download context with 32-bit symbolic Size (5..600) and Buf_Idx, one segment confirmation')
-    return Inst('csdo_%s_s%d_b%d_j%d%s%s' % ('dn' if dirn else 'up', size, beh, j, '' if follow else '_nf', '_cbt' if cbtmr else ''), 'csdo_e2e.c', defs, unwind=max(size + 20, 24), unwindset=uw,
-                objbits=10, csdo_cbs=['cb'], tmr_cbs=['app_cb'], harness_only=['KIND', 'DIRN', 'SIZE', 'BEH', 'J', 'FOLLOW', 'CBTMR'], family='csdo_e2e',
+    return Inst('csdo_%s_s%d_b%d_j%d%s%s' % ('dn' if dirn else 'up', size, beh, j, '' if follow else '_nf', '_cbt' if cbtmr else ('_cbr' if cbreq else '')), 'csdo_e2e.c', defs, unwind=max(size + 20, 24), unwindset=uw,
+                objbits=10, csdo_cbs=['cb'], tmr_cbs=['app_cb'], harness_only=['KIND', 'DIRN', 'SIZE', 'BEH', 'J', 'FOLLOW', 'CBTMR', 'CBREQ'], family='csdo_e2e',
                 bounds='%s of %d bytes (payload symbolic), server %s, time-out %d ticks; followed by a second transfer with a longer time-out%s' % (
                     'download' if dirn else 'upload', size, behs[beh], 3, '; the completion callback starts an application timer' if cbtmr else ''))
 
@@ -870,6 +875,11 @@ def c19(tier):
     for d in (0, 1):
         for sz, beh, j in ((4, 0, 0), (8, 0, 0), (4, 1, 0), (4, 2, 0), (8, 2, 1), (8, 1, 1), (4, 3, 0), (8, 4, 1)):
             out.append(csdo_inst(0, d, sz, beh, j, cbtmr=True))
+            if (sz, beh) in ((4, 0), (8, 0), (4, 2), (8, 1)):
+                out.append(csdo_inst(0, d, sz, beh, j, cbreq=True, follow=0))
+    # upload whose final segment claims more data than remains
+    for sz in ((5, 8, 15) if tier == 'quick' else (5, 6, 8, 9, 13, 15, 16, 22)):
+        out.append(csdo_inst(0, 0, sz, 6, 0))
     return out
 
 
